@@ -1015,6 +1015,7 @@ class Acceptor:
     def schedule_loop(self, mi, after_handled, src, allow_queue):
         self.completion_round(mi)
         guard = 0
+        just_handled = False
         while True:
             guard += 1
             if guard > 10000:
@@ -1032,12 +1033,15 @@ class Acceptor:
                 res = self.step(mi, occ, 'direct')
                 self.post_queued(mi, res)
                 continue
-            # completion steps re-offered after a handled event come before the next queued occurrence (C10), also
-            # before one whose dispatch leaves no record
-            before = len(mi.queue)
-            self.skip_completion_retries()
-            if len(mi.queue) != before:
-                continue
+            # completion steps re-offered by the completion event of a step that was just handled come before the next
+            # queued occurrence (C10), also before one whose dispatch leaves no record; without a handled step in
+            # between (queue processing right after an aborted completion step) the queue goes on first
+            if just_handled:
+                before = len(mi.queue)
+                self.skip_completion_retries()
+                if len(mi.queue) != before:
+                    continue
+            just_handled = False
             # silently consumed occurrences: blocked machine swallows queued events
             if mi.queue and self.blocked(mi, mi.queue[0].typ):
                 self.hit('C11', ('swallow-queued', mi.queue[0].typ))
@@ -1050,6 +1054,7 @@ class Acceptor:
                 occ = mi.queue.pop(0)
                 res = self.step(mi, occ, self.src_of(mi, occ))     # emits no expectation; may defer the occurrence
                 self.post_queued(mi, res)
+                just_handled = isinstance(res, int) and bool(res & T)
                 continue
             before = len(mi.queue)
             self.skip_completion_retries()
@@ -1073,12 +1078,14 @@ class Acceptor:
                     pass
                 res = self.step(mi, occ, self.src_of(mi, occ))
                 self.post_queued(mi, res)
+                just_handled = isinstance(res, int) and bool(res & T)
             else:
                 self.check_defer_order(mi, occ)
                 mi.deferred.remove(occ)
                 self.hit('C05', ('reoffer', mi.name, tuple(mi.active), occ.typ, len(mi.deferred)))
                 res = self.step(mi, occ, 'direct')
                 self.post_queued(mi, res)
+                just_handled = isinstance(res, int) and bool(res & T)
 
     def src_of(self, mi, occ):
         if occ.free:
